@@ -88,7 +88,10 @@ run_part() {
 }
 
 inpkg_test() { # <name> <TestFunc> [timeout]
-  run_part "$1" timeout -s QUIT "${3:-3000}" "$S/inpkg.test" -test.run "^$2\$" -test.timeout 0 -test.count 1
+  # race reports never change the exit code of a property's own run; they are
+  # counted and attributed to C09 (see check_C09)
+  export GORACE="halt_on_error=0 exitcode=0 log_path=$S/race-$1"
+  run_part "$1" in_ns timeout -s QUIT "${3:-3000}" "$S/inpkg.test" -test.run "^$2\$" -test.timeout 0 -test.count 1
 }
 
 # in_ns <cmd...> : run inside a private network+mount namespace when possible
@@ -100,10 +103,14 @@ in_ns() {
   fi
 }
 
+count_races() { cat "$S"/race-* 2>/dev/null | grep -c 'WARNING: DATA RACE'; }
+
 ensure_tools
 . "$ROOT/checks.sh"
 if ! declare -F "check_$PROP" >/dev/null; then echo "unknown property $PROP"; exit 2; fi
 "check_$PROP"
 
+NR=$(count_races)
+[ "$NR" = 0 ] || echo "NOTE race-detector reports during this run: $NR (attributed to C09, see ./check.sh C09)"
 "$ROOT/bin/vfmerge" "$PROP" "$TIER" "$EVDIR/$PROP.json" $(( $(date +%s) - T0 )) "${PARTS[@]}" || RC=2
 exit $RC
